@@ -11,9 +11,11 @@ EXTENDS Corpus
 
 (* blank id -> [nl: newlines it contains, w: characters after the last newline (or in all, if none)];
    ids are 0-based in the records, the texts live in the harness (lib/layout.py BLANKS, same order):
-   0 ""   1 " "   2 "  "   3 TAB   4 LF   5 LF LF   6 " # note" LF   7 LF + 4 spaces   8 FF   9 " " LF "# a | b ; (c" LF "  " *)
+   0 ""   1 " "   2 "  "   3 TAB   4 LF   5 LF LF   6 " # note" LF   7 LF + 4 spaces   8 FF   9 " " LF "# a | b ; (c" LF "  "
+   10 " #" LF (a comment with an empty body)   11 CR LF *)
 BlankShape == << [nl |-> 0, w |-> 0], [nl |-> 0, w |-> 1], [nl |-> 0, w |-> 2], [nl |-> 0, w |-> 1], [nl |-> 1, w |-> 0],
-                 [nl |-> 2, w |-> 0], [nl |-> 1, w |-> 0], [nl |-> 1, w |-> 4], [nl |-> 0, w |-> 1], [nl |-> 2, w |-> 2] >>
+                 [nl |-> 2, w |-> 0], [nl |-> 1, w |-> 0], [nl |-> 1, w |-> 4], [nl |-> 0, w |-> 1], [nl |-> 2, w |-> 2],
+                 [nl |-> 1, w |-> 0], [nl |-> 1, w |-> 0] >>
 NBlanks == Len(BlankShape)
 Menu(pre) == CASE pre = "none" -> {0} [] pre = "opt" -> 0..(NBlanks - 1) [] pre = "req" -> 1..(NBlanks - 1)
 
